@@ -1473,35 +1473,37 @@ class UTPM(Ring, RawAlgorithmsMixIn):
     def __neg__(self):
         return self.__class__.neg(self)
 
-    def __lt__(self, other):
+    def _cmp_operands(self, other):
+        """ the zeroth coefficients of self and other with the value axes aligned like numpy aligns x_0 and y_0
+        (not the direction axis of one with a value axis of the other when the ranks differ)"""
         if isinstance(other,self.__class__):
-            return numpy.all(self.data[0,...] < other.data[0,...])
-        else:
-            return numpy.all(self.data[0,...] < other)
+            x_data, y_data = UTPM._broadcast_arrays(self.data, other.data)
+            return x_data[0], y_data[0]
+        x0 = self.data[0]
+        k = numpy.ndim(other) - (x0.ndim - 1)
+        if k > 0:
+            x0 = x0.reshape(x0.shape[:1] + (1,)*k + x0.shape[1:])
+        return x0, other
+
+    def __lt__(self, other):
+        x0, y0 = self._cmp_operands(other)
+        return numpy.all(x0 < y0)
 
     def __le__(self, other):
-        if isinstance(other,self.__class__):
-            return numpy.all(self.data[0,...] <= other.data[0,...])
-        else:
-            return numpy.all(self.data[0,...] <= other)
+        x0, y0 = self._cmp_operands(other)
+        return numpy.all(x0 <= y0)
 
     def __gt__(self, other):
-        if isinstance(other,self.__class__):
-            return numpy.all(self.data[0,...] > other.data[0,...])
-        else:
-            return numpy.all(self.data[0,...] > other)
+        x0, y0 = self._cmp_operands(other)
+        return numpy.all(x0 > y0)
 
     def __ge__(self, other):
-        if isinstance(other,self.__class__):
-            return numpy.all(self.data[0,...] >= other.data[0,...])
-        else:
-            return numpy.all(self.data[0,...] >= other)
+        x0, y0 = self._cmp_operands(other)
+        return numpy.all(x0 >= y0)
 
     def __eq__(self, other):
-        if isinstance(other,self.__class__):
-            return numpy.all(self.data[0,...] == other.data[0,...])
-        else:
-            return numpy.all(self.data[0,...] == other)
+        x0, y0 = self._cmp_operands(other)
+        return numpy.all(x0 == y0)
 
     @classmethod
     def neg(cls, x, out = None):
